@@ -77,8 +77,11 @@ def body(name):
 
 
 class Mod:
-    def __init__(self, rel, parent, decl, name, alt):
+    def __init__(self, rel, parent, decl, name, alt, content_only=False):
         self.rel, self.parent, self.decl, self.name, self.alt = rel, parent, decl, name, alt
+        # one of several candidate files of a `#[cfg_attr(.., path = ..)] mod x;` declaration: the module still
+        # resolves through the other candidate when this file is absent, so only CONTENT faults are faults here
+        self.content_only = content_only
 
 
 class Shape:
@@ -151,6 +154,33 @@ def make_shapes():
                 Mod("a.rs", "lib.rs", "mod a;", "a", "a/mod.rs"),
                 Mod("a/c.rs", "a.rs", "mod c;", "c", "a/c/mod.rs"),
                 Mod("b.rs", "lib.rs", "mod b;", "b", "b/mod.rs"),
+            ],
+        )
+    )
+    cfg_decl = '#[cfg_attr(c, path = "imp_alt.rs")]\nmod imp;'
+    s.append(
+        Shape(
+            "S9-cfg-attr-path-two-candidates",
+            {"lib.rs": cfg_decl + "\n" + body("root"), "imp.rs": body("imp"), "imp_alt.rs": body("imp_alt")},
+            [
+                Mod("imp.rs", "lib.rs", cfg_decl, "imp", None, content_only=True),
+                Mod("imp_alt.rs", "lib.rs", cfg_decl, "imp", None, content_only=True),
+            ],
+        )
+    )
+    s.append(
+        Shape(
+            "S10-child-with-cfg-attr-path-two-candidates",
+            {
+                "lib.rs": "mod a;\n" + body("root"),
+                "a.rs": cfg_decl + "\n" + body("a"),
+                "a/imp.rs": body("imp"),
+                "imp_alt.rs": body("imp_alt"),  # a #[path] is relative to the directory of the declaring FILE
+            },
+            [
+                Mod("a.rs", "lib.rs", "mod a;", "a", "a/mod.rs"),
+                Mod("a/imp.rs", "a.rs", cfg_decl, "imp", None, content_only=True),
+                Mod("imp_alt.rs", "a.rs", cfg_decl, "imp", None, content_only=True),
             ],
         )
     )
@@ -238,7 +268,7 @@ def single_faults(shape, thorough):
         if rel == shape.root:
             for k in ROOT_PATH_FAULTS:
                 out.append({"kind": k, "at": rel})
-        else:
+        elif not shape.mods[rel].content_only:
             for k in MODULE_FAULTS:
                 if k == "both-file-and-dir-mod" and shape.mods[rel].alt is None:
                     continue
